@@ -128,6 +128,7 @@ static Plan c07_gen(uint64_t seed, int tier, uint64_t index) {
     }
     if (r.chance(1, 6)) { p.cfg["resdis"] = 1; if (r.chance(1, 2)) { p.cfg["tickets"] = 1; } }
     else if (r.chance(1, 8)) { p.cfg["reoffer"] = 1; if (r.chance(1, 2)) { p.cfg["tickets"] = 1; } }
+    else if (r.chance(1, 8)) { p.cfg["reems"] = 1; p.cfg["ems_c"] = -1; if (r.chance(1, 2)) { p.cfg["tickets"] = 1; } }
     if (r.chance(1, 5)) { p.cfg["ems_c"] = -1; }
     if (r.chance(1, 6)) { p.cfg["ems_s"] = 1; }
     if (r.chance(1, 4)) { p.cfg["fallback"] = 1; }
@@ -162,6 +163,14 @@ static std::vector<Plan> c07_fixed(int tier) {
         p.ops.push_back(Op("send", 0, 50)); p.ops.push_back(Op("send", 1, 50));
         v.push_back(p);
     } } }
+    // a session made without extended_master_secret offered to a server session that requires it: session id and ticket, TLS 1.1/1.2 and DTLS
+    for (int fam = 0; fam < 3; fam++) { for (int tk = 0; tk < 2; tk++) {
+        Plan p; p.seed = 78700 + (uint64_t) (fam * 2 + tk);
+        p.cfg["dtls"] = fam == 2; p.cfg["vers_c"] = fam == 2 ? 16 : (fam ? 2 : 1); p.cfg["vers_s"] = p.cfg["vers_c"]; p.cfg["sid_kind"] = KK_RSA2048; p.cfg["reems"] = 1; p.cfg["ems_c"] = -1; p.cfg["tickets"] = tk;
+        p.cfg["suite"] = TLS_RSA_WITH_AES_128_CBC_SHA;
+        p.ops.push_back(Op("send", 0, 50)); p.ops.push_back(Op("send", 1, 50));
+        v.push_back(p);
+    } }
     // resumption offered together with a DIFFERENT suite list than the original connection used: session id, ticket, TLS 1.3 PSK
     for (int fam = 0; fam < 3; fam++) { for (int tk = 0; tk < 2; tk++) { for (int su = 0; su < 2; su++) {
         Plan p; p.seed = 78500 + (uint64_t) ((fam * 2 + tk) * 2 + su);
@@ -423,6 +432,14 @@ static RunResult c07_exec(const Plan &p) {
                         if (!res.violation && p.get("fallback") && top_bit(vs) > top_bit(vc_eff)) {
                             res.violate("fallback_accepted", ctx, "the ClientHello carried TLS_FALLBACK_SCSV, the server supports a higher version than the client offered, and the handshake completed");
                         }
+                        if (!res.violation && nvc != v_tls_1_3) {
+                            // extended master secret (a per-session option on both sides): required by the server session => in force; disabled by the client => not in force
+                            int es = vsim_peek_ems((const struct ssl *) w.srv->ssl), ec = vsim_peek_ems((const struct ssl *) w.cli->ssl);
+                            res.count(std::string("ems.") + (es ? "in_force" : "not_in_force"));
+                            if (pc.ems_s > 0 && !es) { res.violate("param_not_mutual", "extended_master_secret_required_by_server_but_not_in_force", "the server session requires extended_master_secret and the handshake completed without it"); }
+                            else if (pc.ems_c < 0 && (es || ec)) { res.violate("param_not_mutual", "extended_master_secret_disabled_by_client_but_in_force", "the client session disabled extended_master_secret and the handshake completed with it"); }
+                            else if (es != ec) { res.violate("endpoints_disagree", "extended_master_secret", "client and server disagree on extended_master_secret use"); }
+                        }
                         // identical keys: data round-trips
                         if (!res.violation) {
                             Bytes a = tagged_payload(0, 1, 60), b = tagged_payload(1, 2, 60);
@@ -453,6 +470,22 @@ static RunResult c07_exec(const Plan &p) {
                         }
                     }
                 }
+                // second connection (cfg "reems"): the first one ran WITHOUT extended_master_secret (client option); the client comes back with that session /
+                // ticket, still without the extension, to a server session of the same process that REQUIRES extended_master_secret
+                if (!res.violation && p.get("reems") && cc && sc && !rewritten && pc.ems_c < 0 && pc.ems_s <= 0 && (w.cli->negotiated_version() & 0xffffff) != v_tls_1_3) {
+                    w.cli->app_close(); w.pump();
+                    w.filter = nullptr;
+                    w.pc.ems_s = 1;
+                    if (w.connect(true)) {
+                        w.handshake();
+                        bool c2 = w.cli->is_complete() && w.srv->is_complete();
+                        res.count(std::string("reems.") + (c2 ? (w.srv->is_resumed() ? "completed_resumed" : "completed_full") : "refused"));
+                        if (w.srv->is_complete() && !vsim_peek_ems((const struct ssl *) w.srv->ssl)) {
+                            res.violate("param_not_mutual", "extended_master_secret_required_by_server_but_not_in_force,second_connection", std::string("second connection ") + (w.srv->is_resumed() ? "resumed" : "completed") +
+                                        " without extended_master_secret on a server session that requires it");
+                        }
+                    }
+                }
                 // second connection (cfg "reoffer"): the client comes back with its stored session / ticket / PSK but now offers ANOTHER suite only
                 // (same PRF hash, so that a TLS 1.3 PSK stays usable): whatever the server does, the suite in force must be one the client offered
                 if (!res.violation && p.get("reoffer") && cc && sc && !rewritten) {
@@ -477,7 +510,7 @@ static RunResult c07_exec(const Plan &p) {
                         }
                     }
                 }
-                res.nontrivial = rewritten || (vc != vs) || p.get("fallback") != 0 || p.get("resdis") != 0 || p.get("reoffer") != 0;
+                res.nontrivial = rewritten || (vc != vs) || p.get("fallback") != 0 || p.get("resdis") != 0 || p.get("reoffer") != 0 || p.get("reems") != 0;
                 res.fingerprint = mix64(w.fingerprint(), (uint64_t) rw * 1000 + rwa);
             }
         }
